@@ -664,6 +664,13 @@ func newSimStream(d *Daemon, id string, openIdx int, l Layout, follow bool, _ ma
 		s.readErr = &net.OpError{Op: "read", Net: "tcp", Err: os.NewSyscallError("read", syscall.ECONNRESET)}
 	case si.Kind == FaultReadError && si.ErrKind == "epipe":
 		s.readErr = &net.OpError{Op: "read", Net: "unix", Err: os.NewSyscallError("read", syscall.EPIPE)}
+	case si.Kind == FaultReadError && si.ErrKind == "wraps_unexpected_eof":
+		// An error that merely wraps an EOF sentinel is an error, not an end of input: "Read
+		// must return EOF itself, not an error wrapping EOF, because callers will test for
+		// EOF using ==" (package io).
+		s.readErr = &net.OpError{Op: "read", Net: "tcp", Err: io.ErrUnexpectedEOF}
+	case si.Kind == FaultReadError && si.ErrKind == "wraps_eof":
+		s.readErr = fmt.Errorf("read tcp %s: %w", id, io.EOF)
 	case si.Kind == FaultReadError && si.ErrKind == "canceled":
 		// a cancellation that is not the query's own (the daemon's side gave up)
 		s.readErr = fmt.Errorf("read %s: %w", id, context.Canceled)
